@@ -28,7 +28,7 @@ for c in cases:
         named = c["expect"] in out
         repro = any("no-failing-input-found" not in l for l in viol)
         ok = r.returncode == 1 and viol and named and (repro or not c.get("reproduced"))
-        print("%-4s %-40s %-4s exit=%d violations=%d named=%s reproduced=%s" % ("ok" if ok else "MISS", c["patch"], c["property"], r.returncode, len(viol), named, repro))
+        sys.stdout.flush(); print("%-4s %-40s %-4s exit=%d violations=%d named=%s reproduced=%s" % ("ok" if ok else "MISS", c["patch"], c["property"], r.returncode, len(viol), named, repro))
         if not ok:
             bad += 1
             print(out[-1500:])
